@@ -40,6 +40,8 @@ def program(draw, max_pops=5, max_steps=5, allow_ancient=True, allow_true_split=
                 choices.append('split')
                 if favor_split:
                     choices += ['split', 'split', 'split']
+                if k + 2 <= max_pops:
+                    choices.append('split3')
             if allow_admix and len(active) >= 2:
                 choices.append('admix')
             if allow_ancient and nanc < 2:
@@ -49,7 +51,7 @@ def program(draw, max_pops=5, max_steps=5, allow_ancient=True, allow_true_split=
         if allow_remove and len(active) >= 2:
             choices.append('remove')
         if s == 0 and k == 1:
-            choices = [c for c in choices if c in ('none', 'branch', 'split')]
+            choices = [c for c in choices if c in ('none', 'branch', 'split', 'split3')]
         c = draw(st.sampled_from(choices))
         if c == 'branch':
             ev = dict(op='branch', parent=draw(st.sampled_from(active)), ancient=False)
@@ -64,6 +66,11 @@ def program(draw, max_pops=5, max_steps=5, allow_ancient=True, allow_true_split=
             live.pop(p)                      # both children go to the end (creation order is kept by an explicit reordering)
             live.append(dict(frozen=False))
             live.append(dict(frozen=False))
+        elif c == 'split3':
+            p = draw(st.sampled_from(active))
+            ev = dict(op='split', parent=p, children=3)
+            live.pop(p)
+            live += [dict(frozen=False), dict(frozen=False), dict(frozen=False)]
         elif c == 'admix':
             w = [draw(st.sampled_from([0.0, 0.0, 1.0, 2.0, 3.0])) if i in active else 0.0 for i in range(k)]
             if sum(1 for x in w if x > 0) < 2:
@@ -138,6 +145,8 @@ def program(draw, max_pops=5, max_steps=5, allow_ancient=True, allow_true_split=
                 for j in range(k):
                     if i != j and not live[i]['frozen'] and not live[j]['frozen'] and draw(st.integers(0, 2)) == 0:
                         mig[i][j] = draw(st.sampled_from([0.5, 1.0, 2.5]))
+                        if i > j and mig[j][i] != 0 and draw(st.booleans()):
+                            mig[i][j] = mig[j][i]        # a symmetric pair
         steps.append(dict(event=ev, integrate=dict(T=T, sizes=sizes, mig=mig, cont=cont)))
     # sizes of a population continue from epoch to epoch only by chance; that is allowed (instantaneous size changes)
     kmax = max(len(s['integrate']['sizes']) for s in steps)
@@ -147,7 +156,7 @@ def program(draw, max_pops=5, max_steps=5, allow_ancient=True, allow_true_split=
 
 
 def features(prog):
-    f = dict(max_pops=1, true_split=False, ancient=0, mig=False, pulse=False, growth=False, admix=False, merge=False, remove=False, long_epoch=False)
+    f = dict(max_pops=1, true_split=False, ancient=0, mig=False, pulse=False, growth=False, admix=False, merge=False, remove=False, long_epoch=False, symmig=False)
     k = 1
     for s in prog['steps']:
         ev = s['event']
@@ -167,6 +176,9 @@ def features(prog):
         f['max_pops'] = max(f['max_pops'], k)
         if any(any(r) for r in s['integrate']['mig']):
             f['mig'] = True
+            M = s['integrate']['mig']
+            if any(M[i][j] != 0 and M[i][j] == M[j][i] for i in range(len(M)) for j in range(i)):
+                f['symmig'] = True
         if any(z[2] != 'constant' for z in s['integrate']['sizes']):
             f['growth'] = True
         if any(c and z[2] != 'constant' for c, z in zip(s['integrate'].get('cont', []), s['integrate']['sizes'])):
@@ -255,9 +267,25 @@ def run_native(prog, return_names=False, rescale=1.0, upto=None, swipe_at=None, 
                 else:
                     pr = [1.0 if i == p else 0.0 for i in range(4)]
                     phi = PhiManip.phi_4D_to_5D(phi, pr[0], pr[1], pr[2], xx, xx, xx, xx, xx, **ids(names))
+                if ev['op'] == 'split' and ev.get('children', 2) == 3:
+                    # a three-way split: the third child is one more copy of the first
+                    names.append('p%d' % counter)
+                    counter += 1
+                    frozen.append(False)
+                    last_nu.append(last_nu[p])
+                    kk = k + 1
+                    if kk == 2:
+                        phi = [PhiManip.phi_2D_to_3D_split_1, PhiManip.phi_2D_to_3D_split_2][p](xx, phi, **ids(names))
+                    elif kk == 3:
+                        pr = [1.0 if i == p else 0.0 for i in range(3)]
+                        phi = PhiManip.phi_3D_to_4D(phi, pr[0], pr[1], xx, xx, xx, xx, **ids(names))
+                    else:
+                        pr = [1.0 if i == p else 0.0 for i in range(4)]
+                        phi = PhiManip.phi_4D_to_5D(phi, pr[0], pr[1], pr[2], xx, xx, xx, xx, xx, **ids(names))
+                nnew = len(names)
                 if ev['op'] == 'split' and p != k - 1:
-                    # move the first child from the parent's slot to the last-but-one position
-                    order = [i for i in range(k + 1) if i != p]
+                    # move the first child from the parent's slot to just before the other children (axes in creation order)
+                    order = [i for i in range(nnew) if i != p]
                     order.insert(k - 1, p)
                     phi = PhiManip.reorder_pops(phi, [i + 1 for i in order])
                     names = [names[i] for i in order]
@@ -383,13 +411,14 @@ def to_demes(prog, time_units='generations', generation_time=None, scale=1.0, up
                     axes.append(name)
             elif ev['op'] == 'split':
                 parent = axes[ev['parent']]
-                a, b = 'p%d' % counter, 'p%d' % (counter + 1)
-                counter += 2
-                for nm in (a, b):
+                nch = ev.get('children', 2)
+                kids = ['p%d' % (counter + i) for i in range(nch)]
+                counter += nch
+                for nm in kids:
                     demes_d[nm] = dict(start_time=t_now, ancestors=[parent], proportions=[1.0], epochs=[])
                     order.append(nm)
                 axes.pop(ev['parent'])
-                axes += [a, b]
+                axes += kids
             elif ev['op'] == 'admix':
                 pr = ev['props']
                 name = 'p%d' % counter
@@ -450,8 +479,23 @@ def to_demes(prog, time_units='generations', generation_time=None, scale=1.0, up
         if d['ancestors'] is not None:
             kw.update(ancestors=d['ancestors'], proportions=d['proportions'], start_time=d['start_time'] * tfac)
         b.add_deme(name, **kw)
-    for m in migs:
-        b.add_migration(source=m['source'], dest=m['dest'], rate=m['rate'], start_time=m['start_time'] * tfac, end_time=m['end_time'] * tfac)
+    # equal rates in both directions over the same interval are written as one symmetric migration (demes=[a, b])
+    used = set()
+    for i, m in enumerate(migs):
+        if i in used:
+            continue
+        twin = None
+        for j in range(i + 1, len(migs)):
+            o = migs[j]
+            if j not in used and o['source'] == m['dest'] and o['dest'] == m['source'] and o['rate'] == m['rate'] \
+                    and o['start_time'] == m['start_time'] and o['end_time'] == m['end_time']:
+                twin = j
+                break
+        if twin is not None:
+            used.add(twin)
+            b.add_migration(demes=[m['source'], m['dest']], rate=m['rate'], start_time=m['start_time'] * tfac, end_time=m['end_time'] * tfac)
+        else:
+            b.add_migration(source=m['source'], dest=m['dest'], rate=m['rate'], start_time=m['start_time'] * tfac, end_time=m['end_time'] * tfac)
     for p in pulses:
         b.add_pulse(sources=p['sources'], dest=p['dest'], proportions=p['proportions'], time=p['time'] * tfac)
     g = b.resolve()
